@@ -23,7 +23,9 @@ fn main() {
 fn eval() {
     let mut src = String::new();
     std::io::stdin().read_to_string(&mut src).unwrap();
-    std::panic::set_hook(Box::new(|_| {}));
+    if std::env::var("VH_KEEP_HOOK").is_err() {
+        std::panic::set_hook(Box::new(|_| {}));
+    }
     let mut engine = steel::steel_vm::engine::Engine::new();
     for piece in src.split("\n;;;---\n") {
         let piece = piece.to_string();
